@@ -369,6 +369,7 @@ def family_and_utility_sweep(ctx):
         ncall += 1
         b_owner, b_arr = {}, [a.copy() for a in arrays]
         snap(owner, "o", b_owner, {})
+        b_int, backup = interp_state(), interp_backup()
         try:
             r1 = call()
             r2 = call()
@@ -382,6 +383,11 @@ def family_and_utility_sweep(ctx):
         for i, (x0, x1) in enumerate(zip(b_arr, arrays)):
             if x0.tobytes() != x1.tobytes():
                 what = ("input-array", "%s overwrote its argument %d: %r -> %r" % (site, i, x0.tolist(), x1.tolist()))
+        a_int = interp_state()
+        if a_int != b_int:
+            k2 = [k for k in a_int if a_int[k] != b_int[k]][0]
+            what = ("module-state", "%s changed interpreter-global state %s" % (site, k2))
+            interp_restore(backup)
         if r1 is not None and result_value(np.asarray(r1, dtype=float)) != result_value(np.asarray(r2, dtype=float)):
             what = ("repeatability", "%s returned different results when repeated" % site)
         ctx.count(("sweep", site), True)
@@ -451,6 +457,40 @@ GHM3 = ["marginal_icdf_seeded", "conditional_sample", "dep_call", "dist0_pdf", "
 TRANS = ["draw_sample_seeded", "marginal_icdf_seeded", "conditional_sample", "dep_call", "pdf", "draw_sample", "empirical_cdf_sample", "direct_sampling", "and", "or"]
 CONTOURS = {"iform", "iform_seeded", "isorm", "hdc", "hdc_default", "direct_sampling", "and", "or"}
 SLOW = {"cdf": 3.0, "empirical_cdf_cached": 1.0, "hdc_default": 1.0}
+
+
+def interp_state():
+    """interpreter-global state an evaluation can leak into: the warnings filter list, numpy's error and print settings,
+    matplotlib's rcParams, python's own random module"""
+    import random as _random
+    import matplotlib
+    return {"warnings.filters": tuple((f[0], repr(f[1]), getattr(f[2], "__name__", repr(f[2])), repr(f[3]), f[4]) for f in warnings.filters),
+            "warnings.defaultaction": getattr(warnings, "defaultaction", None),
+            "numpy.geterr": tuple(sorted(np.geterr().items())),
+            "numpy.printoptions": tuple(sorted((k, repr(v)) for k, v in np.get_printoptions().items())),
+            "matplotlib.rcParams": hashlib.sha1(repr(sorted((k, repr(v)) for k, v in matplotlib.rcParams.items())).encode()).hexdigest(),
+            "random.getstate": hashlib.sha1(repr(_random.getstate()).encode()).hexdigest()}
+
+
+def interp_backup():
+    import random as _random
+    import matplotlib
+    return (list(warnings.filters), dict(np.geterr()), dict(np.get_printoptions()), dict(matplotlib.rcParams), _random.getstate())
+
+
+def interp_restore(b):
+    """after a leak has been recorded: put the interpreter back so that the following operations are judged on their own"""
+    import random as _random
+    import matplotlib
+    warnings.filters[:] = b[0]
+    if hasattr(warnings, "_filters_mutated"):
+        warnings._filters_mutated()
+    np.seterr(**b[1])
+    np.set_printoptions(**{k: v for k, v in b[2].items() if k != "override_repr"})
+    with warnings.catch_warnings():
+        warnings.simplefilter("ignore")
+        matplotlib.rcParams.update(b[3])
+    _random.setstate(b[4])
 
 
 class World:
@@ -536,6 +576,8 @@ class World:
                     if isinstance(val, (list, dict, set, bytearray, np.ndarray, np.random.RandomState, np.random.Generator,
                                         np.random.BitGenerator)) or is_virocon_obj:
                         snap(val, "glob:%s.%s" % (mn, nm), s, {})
+        for k2, v2 in interp_state().items():
+            s["glob:interpreter." + k2] = ("interp", v2)
         st = np.random.get_state()
         s["rng"] = ("rng", hashlib.sha1(st[1].tobytes()).hexdigest(), st[2], st[3])
         s["figs"] = ("figs", tuple(plt.get_fignums()))
@@ -837,6 +879,7 @@ def run_history(names, ops, seed, keep_results=False):
                 steps.append({"skipped": True, "changed": [], "cells": set(), "err": None})
                 continue
             np.random.seed((world.seed * 31 + op["id"] * 7) % (2 ** 31))
+            backup = interp_backup()
             before = world.snapshot()
             err = None
             import signal
@@ -855,6 +898,8 @@ def run_history(names, ops, seed, keep_results=False):
             after = world.snapshot()
             import matplotlib.pyplot as plt
             changed = diff_paths(before, after)
+            if any(pth.startswith("glob:interpreter.") for pth in changed):
+                interp_restore(backup)
             cells = {}
             for p in changed:
                 cells.setdefault(world.cell_of(p), []).append(p)
@@ -890,7 +935,9 @@ def classify(names, ops, obs, wsets):
                              "%s changed the contour object built at step %d: %s" % (where, cell[1], paths[0])))
             elif isinstance(cell, tuple) and cell[0] == "Globals":
                 viol.append(({"clause": "module-state", "site": op.get("entry") or op.get("post") or "fit"},
-                             "%s changed module-level state %s (shared by every model)" % (where, cell[1])))
+                             "%s changed %s state %s (shared by every model%s)" % (
+                                 where, "interpreter-global" if cell[1].startswith("interpreter.") else "module-level", cell[1],
+                                 ": later evaluations that emit a warning now raise" if "warnings" in cell[1] else "")))
             elif isinstance(cell, tuple) and cell[0] == "M":
                 k2, f = cell[1], cell[2]
                 fixed = f == "Struct" or (isinstance(f, tuple) and f[0] in ("Template", "Slicer"))
